@@ -22,7 +22,9 @@ pub fn enum_table_inner(ast: &DeriveInput) -> syn::Result<TokenStream> {
         _ => return Err(non_enum_error()),
     };
 
-    let table_name = format_ident!("{}Table", name);
+    // Named like the enum, but spanned like the derive (as `EnumIter` and `EnumDiscriminants` do for the
+    // types they generate): `enum io_mode` must not get a `non_camel_case_types` lint for `io_modeTable`.
+    let table_name = format_ident!("{}Table", name, span = Span::call_site());
 
     // the identifiers of each variant, in PascalCase
     let mut pascal_idents = Vec::new();
